@@ -273,27 +273,33 @@ def native_small_scope():
         vlib.remove_scratch(d)
 
 
-def native_derive_search():
-    """Run the small-scope native search on the real derive(Animate) output
-    (contracts/native/verif_derive_native.rs) in a scratch copy of /repo.
-    -> (status, text): 'agree' | 'disagree' | 'error'."""
+def _native_cargo_test(src_name, dst_rel, cargo_args, test_name, append_mod_to=None, what="native search"):
+    """Copy contracts/native/<src_name> into a scratch copy of /repo at <dst_rel>, optionally declare it as a
+    #[cfg(test)] child module at the end of <append_mod_to>, run `cargo test <cargo_args> -- --nocapture` and
+    classify the line `test ...<test_name> ... ok|FAILED`.  -> (status, text): 'agree' | 'disagree' | 'error'."""
     d, r = vlib.make_scratch("n")
     try:
         import shutil
-        if not os.path.isdir(os.path.join(r, "tests")):
-            os.makedirs(os.path.join(r, "tests"), exist_ok=True)
-        shutil.copyfile(os.path.join(vlib.VERIF, "contracts/native/verif_derive_native.rs"), os.path.join(r, "tests/verif_derive_native.rs"))
+        dst = os.path.join(r, dst_rel)
+        os.makedirs(os.path.dirname(dst), exist_ok=True)
+        shutil.copyfile(os.path.join(vlib.VERIF, "contracts/native", src_name), dst)
+        if append_mod_to:
+            host = os.path.join(r, append_mod_to)
+            if not os.path.exists(host):
+                return "error", "%s missing" % append_mod_to
+            mod = os.path.basename(dst_rel)[:-3]
+            open(host, "a").write("\n#[cfg(test)]\n#[path = \"%s\"]\nmod %s;\n" % (os.path.basename(dst_rel), mod))
         env = dict(os.environ)
         env["CARGO_NET_OFFLINE"] = "true"
         env["CARGO_TARGET_DIR"] = NATIVE_TARGET
         env["RUST_BACKTRACE"] = "0"
-        cmd = ["cargo", "test", "--offline", "-p", "mina", "--test", "verif_derive_native", "--", "--nocapture"]
+        cmd = ["cargo", "test", "--offline"] + cargo_args + ["--", "--nocapture"]
         try:
             pr = subprocess.run(cmd, cwd=r, env=env, stdout=subprocess.PIPE, stderr=subprocess.STDOUT, text=True, timeout=1800)
         except subprocess.TimeoutExpired:
-            return "error", "native derive search timed out"
+            return "error", "%s timed out" % what
         out = pr.stdout
-        m = re.search(r"^test \S*derive_small_scope_search \.\.\. (ok|FAILED)", out, re.M)
+        m = re.search(r"^test \S*" + re.escape(test_name) + r" \.\.\. (ok|FAILED)", out, re.M)
         i = out.find("running ")
         tail = out[i:] if i >= 0 else out[-3000:]
         if not m:
@@ -301,119 +307,32 @@ def native_derive_search():
         return ("agree" if m.group(1) == "ok" else "disagree"), tail[:6000]
     finally:
         vlib.remove_scratch(d)
+
+
+def native_derive_search():
+    return _native_cargo_test("verif_derive_native.rs", "tests/verif_derive_native.rs", ["-p", "mina", "--test", "verif_derive_native"], "derive_small_scope_search")
 
 
 def native_builder_search():
-    """Run the small-scope native search on the real TimelineBuilderArguments::from
-    (contracts/native/verif_native_builder.rs) in a scratch copy of /repo.
-    -> (status, text): 'agree' | 'disagree' | 'error'."""
-    d, r = vlib.make_scratch("n")
-    try:
-        import shutil
-        p = os.path.join(r, "core/src/timeline.rs")
-        if not os.path.exists(p):
-            return "error", "core/src/timeline.rs missing"
-        shutil.copyfile(os.path.join(vlib.VERIF, "contracts/native/verif_native_builder.rs"), os.path.join(r, "core/src/verif_native_builder.rs"))
-        open(p, "a").write("\n#[cfg(test)]\n#[path = \"verif_native_builder.rs\"]\nmod verif_native_builder;\n")
-        env = dict(os.environ)
-        env["CARGO_NET_OFFLINE"] = "true"
-        env["CARGO_TARGET_DIR"] = NATIVE_TARGET
-        env["RUST_BACKTRACE"] = "0"
-        cmd = ["cargo", "test", "--offline", "--release", "-p", "mina_core", "--lib", "verif_native_builder", "--", "--nocapture"]
-        try:
-            pr = subprocess.run(cmd, cwd=r, env=env, stdout=subprocess.PIPE, stderr=subprocess.STDOUT, text=True, timeout=1800)
-        except subprocess.TimeoutExpired:
-            return "error", "native builder search timed out"
-        out = pr.stdout
-        m = re.search(r"^test \S*builder_order_search \.\.\. (ok|FAILED)", out, re.M)
-        i = out.find("running ")
-        tail = out[i:] if i >= 0 else out[-3000:]
-        if not m:
-            return "error", tail[-3000:]
-        return ("agree" if m.group(1) == "ok" else "disagree"), tail[:6000]
-    finally:
-        vlib.remove_scratch(d)
+    return _native_cargo_test("verif_native_builder.rs", "core/src/verif_native_builder.rs", ["--release", "-p", "mina_core", "--lib", "builder_order_search"],
+                              "builder_order_search", append_mod_to="core/src/timeline.rs")
+
+
+def native_builder_stable_search():
+    return _native_cargo_test("verif_native_builder.rs", "core/src/verif_native_builder.rs", ["--release", "-p", "mina_core", "--lib", "builder_stable_search"],
+                              "builder_stable_search", append_mod_to="core/src/timeline.rs")
 
 
 def native_merged_search():
-    """Small-scope native search on the real MergedTimeline (contracts/native/verif_native_merged.rs, public API)."""
-    d, r = vlib.make_scratch("n")
-    try:
-        import shutil
-        os.makedirs(os.path.join(r, "core/tests"), exist_ok=True)
-        shutil.copyfile(os.path.join(vlib.VERIF, "contracts/native/verif_native_merged.rs"), os.path.join(r, "core/tests/verif_native_merged.rs"))
-        env = dict(os.environ)
-        env["CARGO_NET_OFFLINE"] = "true"
-        env["CARGO_TARGET_DIR"] = NATIVE_TARGET
-        env["RUST_BACKTRACE"] = "0"
-        cmd = ["cargo", "test", "--offline", "--release", "-p", "mina_core", "--test", "verif_native_merged", "--", "--nocapture"]
-        try:
-            pr = subprocess.run(cmd, cwd=r, env=env, stdout=subprocess.PIPE, stderr=subprocess.STDOUT, text=True, timeout=1800)
-        except subprocess.TimeoutExpired:
-            return "error", "native merged search timed out"
-        out = pr.stdout
-        m = re.search(r"^test \S*merged_small_scope_search \.\.\. (ok|FAILED)", out, re.M)
-        i = out.find("running ")
-        tail = out[i:] if i >= 0 else out[-3000:]
-        if not m:
-            return "error", tail[-3000:]
-        return ("agree" if m.group(1) == "ok" else "disagree"), tail[:6000]
-    finally:
-        vlib.remove_scratch(d)
+    return _native_cargo_test("verif_native_merged.rs", "core/tests/verif_native_merged.rs", ["--release", "-p", "mina_core", "--test", "verif_native_merged"], "merged_small_scope_search")
 
 
 def native_prepare_search():
-    """Small-scope native search on the real prepare_frame (contracts/native/verif_native_prepare.rs, public API)."""
-    d, r = vlib.make_scratch("n")
-    try:
-        import shutil
-        os.makedirs(os.path.join(r, "core/tests"), exist_ok=True)
-        shutil.copyfile(os.path.join(vlib.VERIF, "contracts/native/verif_native_prepare.rs"), os.path.join(r, "core/tests/verif_native_prepare.rs"))
-        env = dict(os.environ)
-        env["CARGO_NET_OFFLINE"] = "true"
-        env["CARGO_TARGET_DIR"] = NATIVE_TARGET
-        env["RUST_BACKTRACE"] = "0"
-        cmd = ["cargo", "test", "--offline", "--release", "-p", "mina_core", "--test", "verif_native_prepare", "--", "--nocapture"]
-        try:
-            pr = subprocess.run(cmd, cwd=r, env=env, stdout=subprocess.PIPE, stderr=subprocess.STDOUT, text=True, timeout=1800)
-        except subprocess.TimeoutExpired:
-            return "error", "native prepare_frame search timed out"
-        out = pr.stdout
-        m = re.search(r"^test \S*prepare_frame_search \.\.\. (ok|FAILED)", out, re.M)
-        i = out.find("running ")
-        tail = out[i:] if i >= 0 else out[-3000:]
-        if not m:
-            return "error", tail[-3000:]
-        return ("agree" if m.group(1) == "ok" else "disagree"), tail[:6000]
-    finally:
-        vlib.remove_scratch(d)
+    return _native_cargo_test("verif_native_prepare.rs", "core/tests/verif_native_prepare.rs", ["--release", "-p", "mina_core", "--test", "verif_native_prepare"], "prepare_frame_search")
 
 
 def native_dur_search():
-    """A4' cross-check on the real std Duration::as_secs_f32 (contracts/native/verif_native_dur.rs)."""
-    d, r = vlib.make_scratch("n")
-    try:
-        import shutil
-        os.makedirs(os.path.join(r, "core/tests"), exist_ok=True)
-        shutil.copyfile(os.path.join(vlib.VERIF, "contracts/native/verif_native_dur.rs"), os.path.join(r, "core/tests/verif_native_dur.rs"))
-        env = dict(os.environ)
-        env["CARGO_NET_OFFLINE"] = "true"
-        env["CARGO_TARGET_DIR"] = NATIVE_TARGET
-        env["RUST_BACKTRACE"] = "0"
-        cmd = ["cargo", "test", "--offline", "--release", "-p", "mina_core", "--test", "verif_native_dur", "--", "--nocapture"]
-        try:
-            pr = subprocess.run(cmd, cwd=r, env=env, stdout=subprocess.PIPE, stderr=subprocess.STDOUT, text=True, timeout=1800)
-        except subprocess.TimeoutExpired:
-            return "error", "native duration search timed out"
-        out = pr.stdout
-        m = re.search(r"^test \S*dur_search \.\.\. (ok|FAILED)", out, re.M)
-        i = out.find("running ")
-        tail = out[i:] if i >= 0 else out[-3000:]
-        if not m:
-            return "error", tail[-3000:]
-        return ("agree" if m.group(1) == "ok" else "disagree"), tail[:6000]
-    finally:
-        vlib.remove_scratch(d)
+    return _native_cargo_test("verif_native_dur.rs", "core/tests/verif_native_dur.rs", ["--release", "-p", "mina_core", "--test", "verif_native_dur"], "dur_search")
 
 
 NATIVE_SEARCHES = {
@@ -429,6 +348,10 @@ NATIVE_SEARCHES = {
                              "clause": "merged update == components applied in order (standalone clones), start_with reaches every component, delay=min, duration=max, repeat=max, cycle=common-or-None, single wrap transparent",
                              "bounded": "0..12 components: n=1 every point of a 5120-point grid, n=2 a 1/77 subgrid, n=3..12 3000 pseudo-random lists each (fixed seed); order-sensitive component updates; 5 times; with/without start_with",
                              "count_re": r"merged small-scope search: (\d+) component lists"},
+    "native_builder_stable_search": {"run": native_builder_stable_search, "function": "TimelineBuilderArguments::from",
+                                     "clause": "keyframes sharing a position keep the order they were added in (C01/C17: repeated positions are in scope and 'consecutive keyframes' needs that order; NOT demanded for C11)",
+                                     "bounded": "2..96 keyframes on a 1/8 position grid (many repeats), 300 pseudo-random insertion orders per size",
+                                     "count_re": r"builder stable-order search: (\d+) insertion orders"},
     "native_builder_search": {"run": native_builder_search, "function": "TimelineBuilderArguments::from",
                               "clause": "real builder arguments == sorted keyframes / matching boundary_times / same multiset, for every insertion order in scope",
                               "bounded": "every insertion order of n<=8 keyframes (distinct positions, and one repeated position for n<=7); n in {9,10,12,16}: rotations, reversals, 20000 pseudo-random permutations each",
